@@ -872,6 +872,11 @@ func (s *Sym) evCall(env *Env, x ECall) TV {
 		a := argv()
 		fr := s.newFrame(s.Top, 0)
 		return fr.unbox("(ival "+a[0].T+")", types.Typ[types.String])
+	case "unboxLen": // length of the slice an interface value holds (meaningful when its dynamic type is a slice)
+		a := argv()
+		fr := s.newFrame(s.Top, 0)
+		sl := fr.unbox("(ival "+a[0].T+")", types.NewSlice(types.Typ[types.UnsafePointer]))
+		return TV{T: "(sl-len " + sl.T + ")", S: "Int"}
 	case "ifacePtr": // payload reference of an interface value
 		a := argv()
 		return TV{T: "(ival " + a[0].T + ")", S: "Int"}
